@@ -255,3 +255,13 @@ Qed.
 (* the hypotheses of the main theorems are satisfiable *)
 Example TemkinApprox_monotone_example : TemkinApprox_loading 5 5 3 1 < TemkinApprox_loading 5 5 3 2.
 Proof. apply TemkinApprox_strictly_monotone; lra. Qed.
+
+(* the declared bounds leave tht unbounded above; beyond 4 the approximation yields NEGATIVE loadings (L (1 - tht L (1 - L)) with L (1-L) <= 1/4):
+   the non-negativity clause of the property is refuted for such in-bounds parameters (TemkinApprox_nonneg above needs tht <= 4) *)
+Lemma TemkinApprox_nonneg_refuted : exists n_m K tht p,
+  TemkinApprox_bounds n_m K tht /\ 0 <= p /\ TemkinApprox_loading_def n_m K tht p /\ TemkinApprox_loading n_m K tht p < 0.
+Proof.
+  exists 1, 1, 8, 1. unfold TemkinApprox_bounds, TemkinApprox_loading_def, TemkinApprox_loading; cbv zeta.
+  assert (E : 1 * 1 / (1 + 1 * 1) = 1 / 2) by field. rewrite E.
+  repeat split; lra.
+Qed.
